@@ -624,3 +624,19 @@ func sortedKeys(m map[string]*Term) []string {
 	sort.Strings(ks)
 	return ks
 }
+
+// nameLet binds a let value to a fresh symbol with a defining equation when
+// it is a non-trivial scalar, so that later quantifier patterns mention a
+// variable instead of the (possibly ite-laden) defining expression.
+func (x *Exec) nameLet(st *State, name string, v Value) Value {
+	sc, ok := v.(Sc)
+	if !ok || sc.T.Op == "var" || sc.T.Op == "const" || sc.T.Op == "true" || sc.T.Op == "false" {
+		return v
+	}
+	if sc.T.S.Kind == SArr {
+		return v
+	}
+	f := x.freshTerm("let_"+name, sc.T.S)
+	st.add(Eq(f, sc.T))
+	return Sc{f}
+}
